@@ -13,6 +13,7 @@ type GraphOpts struct {
 	MaxAnchors      int
 	Cycles          bool // add back-edges (value cycles, merge cycles, mixed)
 	StringKeys      bool // only string keys (enables comparison with yaml.v3's own decoder)
+	QuotedMergeKey  bool // now and then an ordinary string key spelled "<<" (quoted: not a merge)
 	NoRepeatedMerge bool
 	Big             bool // larger mappings and deeper nesting
 }
@@ -211,6 +212,9 @@ func (g *ggen) mapping(depth int) *doc.Node {
 			p.Key, p.KeyNode = "\x00mapkey", g.maps[g.r.IntN(len(g.maps))]
 			g.g.KeyAliasMap++
 			g.g.Feat["key:alias-to-mapping"]++
+		case x == 4 && g.o.QuotedMergeKey && g.r.IntN(3) == 0:
+			p.Key = "<<"
+			g.g.Feat["key:quoted-merge-spelling"]++
 		default:
 			p.Key = graphKeys[g.r.IntN(len(graphKeys))]
 		}
